@@ -35,6 +35,9 @@ typedef double real_t;
 typedef float realf_t;
 #endif
 typedef int c_enum;
+typedef int c_tabid;   /* pointer to one of the constant tables of the TU (read-only, indexable) */
+typedef int c_opaque;  /* object that is not modelled; never read */
+typedef int c_strid;   /* identity of a string literal */
 
 /* ---- exceptions: a throw sets the ghost flag and returns; callers propagate ---------------- */
 static _Bool verif_thrown = 0;
@@ -64,6 +67,11 @@ static _Bool verif_thrown = 0;
 #ifndef REAL_TO_INT
 #define REAL_TO_INT(ct, x) verif_unsupported_real_to_int(x)
 #endif
+
+/* NaN / infinity have no counterpart over the reals: unspecified (but fixed) values */
+extern real_t verif_nan_value, verif_inf_value;
+#define V_NAN verif_nan_value
+#define V_INFINITY verif_inf_value
 
 /* ---- arithmetic ----------------------------------------------------------------------------- */
 #define RDIV(a, b) ((a) / (b))
